@@ -144,8 +144,8 @@ def paramflow(prog, rep, fam):
 # -------------------------------------------------------------------- slots
 def slots(prog, rep, fam):
     if fam.name not in SLOT_TABLE:
-        rep.fail("C05.slots", f"{fam.ci.qualname}", fam.ci.module.relpath + f":{fam.ci.node.lineno}",
-                 "distribution family without a row in the frozen slot table: its parameterisation is unverified")
+        # a family the table does not know cannot be decided: that is an analysis gap, not a violation
+        rep.error(f"C05.slots: distribution family {fam.ci.qualname} has no row in the frozen slot table (rules/distfam.py): its parameterisation cannot be decided")
         return
     dist, table = SLOT_TABLE[fam.name]
     sig = scipyinfo.positional_signature(dist)
